@@ -325,7 +325,31 @@ def run_solve_purity(comp, storage, seed, tid):
     return f.trace()
 
 
+SOLVER_OBJECT_NEG = (("SolverObject_neg_history.cfg", "HistPerSolve"), ("SolverObject_neg_clamp.cfg", "ParamsStable"),
+                     ("SolverObject_neg_identity_cache.cfg", "FreshData"))
+
+
+def solver_object_design(ck):
+    """specs/solvers/SolverObject.tla: what may survive a solve on the solver object. Holds for the code's constants
+    (history local, clamping local, no cache or a cache keyed by content), refuted for the three variants it excludes."""
+    for cfg in ("SolverObject_design.cfg", "SolverObject_design_content_cache.cfg"):
+        rd = tlc.run("SolverObject", cfg, timeout=300)
+        ck.add_tlc(rd, name=f"SolverObject {cfg} (HistPerSolve, ParamsStable, WsFromCtor, FreshData)", kind="design")
+        if rd["violated"]:
+            ck.machinery(f"SolverObject {cfg} violates {rd['violated']}")
+    for neg, inv in SOLVER_OBJECT_NEG:
+        rn = tlc.run("SolverObject", neg, timeout=300)
+        ck.cov.setdefault("design_models", []).append(dict(name=f"SolverObject {neg}", violated=rn["violated"], expected_to_violate=True))
+        if inv not in rn["violated"]:
+            ck.cov["notes"].append(f"{neg} no longer violates {inv}: the negative model lost its teeth")
+
+
 def solve_purity_binding(ck, tier, seed):
+    try:
+        solver_object_design(ck)
+    except tlc.TLCError as e:
+        ck.machinery(str(e)[:2000])
+        return
     items = []
     tid = 800000
     for comp in SOLVE_COMPS:
